@@ -146,7 +146,7 @@ PROPS["C13"] = {
             "Round 4 additions: every middleware reads message and sender from the Context again on its way out; receivers that answer messages with Context.Respond.",
     "technique": "property-based testing (rapid) of generated histories with logging middleware; bracket-structure oracle over the totally ordered log",
     "level_text": "Generated-history search; the oracle is a structural invariant over the delivery log.",
-    "level_note": "middleware functions are pure loggers; no claim about Context.Sender() during lifecycle messages",
+    "level_note": "middleware functions are pure loggers; a lifecycle delivery of the engine must show no sender (since F25), a user message of any value - lifecycle types and nil included - the sender it was sent with",
     "assumptions": LIFE_ASSUME,
     "legs": [rapid("life", "c13", "TestMiddleware", 3000, 50000, shards=(2, 12)),
              rapid("values", "c13", "TestMessageValues", 1500, 20000, shards=(1, 6))],
@@ -210,7 +210,7 @@ PROPS["C09"] = {
             "Round 4 additions: nil message values; when a barrier sentinel does not arrive a witness subscriber decides whether the old subscriber lost its subscription (verdict) or is slow; schedule leg (props/sched, lock shim): 1..3 threads send to never-spawned / stopped / nil targets while another thread spawns and poisons actors, under generated uniform and priority schedules - no thread may end up blocked for good (deadlock = verdict), one DeadLetterEvent per send to the never-spawned PID with target, message and sender.",
     "technique": "model-based property testing (rapid) of generated send/subscribe histories on the real engine; sentinel barriers; finiteness by quiescence rounds; generated uniform and priority schedules (vsched with a cooperative lock shim) for sends racing with registrations, deadlock = verdict",
     "level_text": "Generated-history search against an exact expectation of the dead-letter log of every monitor; the feedback loop with departed subscribers is decided by quiescence rounds, not by time.",
-    "level_note": "single driver goroutine; 'never blocks' shows up only as an inconclusive timeout",
+    "level_note": "the history leg has a single driver goroutine; 'never blocks' is decided by the schedule leg only for lock cycles between senders and registrations (a deadlock under vsched is a verdict), any other blocking shows up as an inconclusive timeout",
     "assumptions": EVENTS_ASSUME,
     "legs": [rapid("hist", "events", "TestDeadLetters", 2000, 40000, shards=(2, 12)),
              rapid("sched", "sched", "TestDeadLetterSchedules", 3000, 60000, shards=(2, 12), flavour="sched")],
@@ -247,7 +247,7 @@ PROPS["C18"] = {
             "Round 4 additions: members with different ids reported behind one shared host.",
     "technique": "model-based property testing (rapid) of snapshot histories against a set model; Members() request as barrier, sentinel event for the event log",
     "level_text": "Generated-history search against an exact set model of the view, the event log and the kind index.",
-    "level_note": "trusts the set model; member attributes are fixed per ID",
+    "level_note": "trusts the set model; kinds are fixed per member ID, hosts are not (moved, shared); every snapshot contains the observing node (the property's quantifier)",
     "assumptions": CLUSTER_ASSUME,
     "legs": [rapid("view", "clusterp", "TestMembershipView", 2000, 40000, shards=(2, 12))],
 }
@@ -306,7 +306,7 @@ PROPS["C10"] = {
             "Round 4 additions: the ids of the population relate to each other as prefixes and paths (1, 10, 1x, 1/0); a spawn over an actor that is being shut down and waits for a child with a blocking Stopped handler (still registered: duplicate event, producer not run).",
     "technique": "model-based property testing (rapid) of spawn/stop histories with concurrent spawn bursts on the real engine; counters in the Producer, sentinel-bounded event counts",
     "level_text": "Generated-history search against an exact model of live ids, producer calls and duplicate events; the spawn race is sampled with up to 12 goroutines per burst.",
-    "level_note": "child spawns are serialised by their parent actor, so only top-level bursts race; Stop is always awaited before the next op",
+    "level_note": "child spawns are serialised by their parent actor, so only top-level bursts race; Stop is awaited before the next op except in the slowkid / churn / poisoned-dupover episodes, which exist to overlap it",
     "assumptions": ENG_ASSUME,
     "legs": [rapid("spawns", "eng", "TestSpawns", 1500, 30000, shards=(2, 12)),
              rapid("mass", "eng", "TestMassRegistry", 6, 60, shards=(1, 4))],
